@@ -443,7 +443,7 @@ fn run(plan: C22Plan) -> RunOutcome {
             if closed {
                 return Err("connection closed by the server".into());
             }
-            if start.elapsed().as_secs() > 15 {
+            if start.elapsed().as_secs() > 90 {
                 return Err("no reply".into());
             }
         }
@@ -468,7 +468,7 @@ fn run(plan: C22Plan) -> RunOutcome {
             if closed {
                 return Err("connection closed by the server".into());
             }
-            if start.elapsed().as_secs() > 15 {
+            if start.elapsed().as_secs() > 90 {
                 return Err("no reply".into());
             }
             cluster.settle();
